@@ -587,3 +587,331 @@ Section Components.
     rewrite Hfit, dot_list_self. unfold eig_invnorm2. fold E. rs. field. exact Hs.
   Qed.
 End Components.
+
+(* ================================================================== linearity, locality, support: every component *)
+Section General.
+  Variable mass : nat -> R.
+  Variable pos : RF.
+  Local Notation ft := (cvc_ft Rops PI mass pos).
+  Local Notation app := (cvc_apply Rops PI mass pos).
+
+  Lemma cvc_ft_linear (c : RC) (F G : RF) a b :
+    ft c (fadd Rops (fscale Rops a F) (fscale Rops b G)) = a * ft c F + b * ft c G.
+  Proof.
+    destruct c as [g1 g2 os|gm gr gr2 axis os|gm gr gr2 axis os|g1 g2 g3 os|g1 g2 g3 g4 os|ids|ids refs c|ids refs evec c];
+      cbn [cvc_ft]; rewrite ?gforce_fadd, ?gforce_fscale, ?adot_fadd, ?adot_fscale.
+    - set (u := vunit Rops _). set (x := gforce Rops F g1). set (y := gforce Rops G g1).
+      set (x' := gforce Rops F g2). set (y' := gforce Rops G g2). destruct os; vd; vu; unfold Rdiv; ring.
+    - set (u := dz_axis Rops mass pos gr gr2 axis). set (x := gforce Rops F gm). set (y := gforce Rops G gm).
+      set (x' := gforce Rops F gr). set (y' := gforce Rops G gr). destruct gr2, os; vd; vu; unfold Rdiv; ring.
+    - set (u := dxy_ortho Rops mass pos gm gr gr2 axis). set (xv := dxy_value Rops mass pos gm gr gr2 axis).
+      set (x := gforce Rops F gm). set (y := gforce Rops G gm).
+      set (x' := gforce Rops F gr). set (y' := gforce Rops G gr). destruct gr2, os; vd; vu; unfold Rdiv; ring.
+    - set (d1 := ang_dxdr1 Rops PI mass pos g1 g2 g3). set (d3 := ang_dxdr3 Rops PI mass pos g1 g2 g3).
+      set (x := gforce Rops F g1). set (y := gforce Rops G g1).
+      set (x' := gforce Rops F g3). set (y' := gforce Rops G g3). destruct os; vd; vu; unfold Rdiv; ring.
+    - set (c1 := dih_cross1 Rops mass pos g1 g2 g3). set (c4 := dih_cross4 Rops mass pos g2 g3 g4).
+      set (f1 := dih_fact1 Rops mass pos g1 g2 g3). set (f4 := dih_fact4 Rops mass pos g2 g3 g4).
+      set (x := gforce Rops F g1). set (y := gforce Rops G g1).
+      set (x' := gforce Rops F g4). set (y' := gforce Rops G g4). destruct os; vd; vu; unfold Rdiv; ring.
+    - ring.
+    - rs. ring.
+    - ring.
+  Qed.
+
+  Lemma cvc_ft_local (c : RC) (F G : RF) : (forall a, In a (cvc_atoms c) -> F a = G a) -> ft c F = ft c G.
+  Proof.
+    intros H.
+    assert (E : forall g, (forall a, In a (gids g) -> In a (cvc_atoms c)) -> gforce Rops F g = gforce Rops G g).
+    { intros g Hg. apply gforce_ext. intros a Ha. apply H, Hg, Ha. }
+    destruct c as [g1 g2 os|gm gr gr2 axis os|gm gr gr2 axis os|g1 g2 g3 os|g1 g2 g3 g4 os|ids|ids refs c|ids refs evec c];
+      cbn [cvc_ft cvc_atoms] in *.
+    - rewrite (E g1), (E g2) by (intros a Ha; rewrite ?in_app_iff; tauto). reflexivity.
+    - rewrite (E gm), (E gr) by (intros a Ha; rewrite ?in_app_iff; tauto). reflexivity.
+    - rewrite (E gm), (E gr) by (intros a Ha; rewrite ?in_app_iff; tauto). reflexivity.
+    - rewrite (E g1), (E g3) by (intros a Ha; rewrite ?in_app_iff; tauto). reflexivity.
+    - rewrite (E g1), (E g4) by (intros a Ha; rewrite ?in_app_iff; tauto). reflexivity.
+    - apply adot_ext. exact H.
+    - f_equal. apply adot_ext. exact H.
+    - apply adot_ext. exact H.
+  Qed.
+
+  Lemma cvc_apply_support (c : RC) fc a : ~ In a (cvc_atoms c) -> app c fc a = v0.
+  Proof.
+    intros H.
+    assert (E : forall g v, (forall b, In b (gids g) -> In b (cvc_atoms c)) -> gapply Rops mass g v fc a = v0).
+    { intros g v Hg. apply gapply_support. intros Ha. apply H, Hg, Ha. }
+    destruct c as [g1 g2 os|gm gr gr2 axis os|gm gr gr2 axis os|g1 g2 g3 os|g1 g2 g3 g4 os|ids|ids refs c|ids refs evec c];
+      cbn [cvc_apply cvc_atoms] in *.
+    - unfold fadd. rewrite !E by (intros b Hb; rewrite ?in_app_iff; tauto). apply vadd_0_l.
+    - destruct gr2 as [g2|]; unfold fadd; rewrite !E by (intros b Hb; rewrite ?in_app_iff; tauto); rewrite ?vadd_0_l; reflexivity.
+    - destruct gr2 as [g2|]; destruct (neqb Rops _ _); try reflexivity;
+        unfold fadd; rewrite !E by (intros b Hb; rewrite ?in_app_iff; tauto); rewrite ?vadd_0_l; reflexivity.
+    - unfold fadd. rewrite !E by (intros b Hb; rewrite ?in_app_iff; tauto). rewrite ?vadd_0_l; reflexivity.
+    - unfold fadd. rewrite !E by (intros b Hb; rewrite ?in_app_iff; tauto). rewrite ?vadd_0_l; reflexivity.
+    - apply aapply_support. exact H.
+    - unfold fadd. rewrite !aapply_support by exact H. apply vadd_0_l.
+    - unfold fadd. rewrite !aapply_support by exact H. apply vadd_0_l.
+  Qed.
+
+  Lemma cvc_ft_ext (c : RC) (F G : RF) : (forall a, F a = G a) -> ft c F = ft c G.
+  Proof. intros H. apply cvc_ft_local. intros a _. apply H. Qed.
+  Lemma cvc_ft_fzero (c : RC) : ft c (fzero Rops) = 0.
+  Proof.
+    rewrite (cvc_ft_ext c (fzero Rops) (fadd Rops (fscale Rops 0 (fzero Rops)) (fscale Rops 0 (fzero Rops)))).
+    - rewrite cvc_ft_linear. ring.
+    - intros a. unfold fadd, fscale, fzero. fold v0. rewrite vscale_0, vadd_0_l. reflexivity.
+  Qed.
+  Lemma cvc_ft_fadd (c : RC) (F G : RF) : ft c (fadd Rops F G) = ft c F + ft c G.
+  Proof.
+    rewrite (cvc_ft_ext c (fadd Rops F G) (fadd Rops (fscale Rops 1 F) (fscale Rops 1 G))).
+    - rewrite cvc_ft_linear. ring.
+    - intros a. unfold fadd, fscale. rewrite !vscale_1. reflexivity.
+  Qed.
+  Lemma cvc_ft_vanish (c : RC) (X : RF) : (forall a, In a (cvc_atoms c) -> X a = v0) -> ft c X = 0.
+  Proof. intros H. rewrite <- (cvc_ft_fzero c). apply cvc_ft_local. intros a Ha. rewrite H by exact Ha. reflexivity. Qed.
+
+  (* ------------------------------------------------------------------ the variable *)
+  Definition proj_list (l : list (RC * R)) (s : R) (F : RF) : R :=
+    tsum Rops (map (fun p => ft (fst p) F * snd p / s) l).
+  Lemma cv_proj_eq cv F : cv_proj Rops PI mass pos cv F = proj_list (cv_comps cv) (cv_sqnorm Rops cv) F.
+  Proof. reflexivity. Qed.
+
+  Lemma proj_list_linear l s (F G : RF) a b :
+    proj_list l s (fadd Rops (fscale Rops a F) (fscale Rops b G)) = a * proj_list l s F + b * proj_list l s G.
+  Proof.
+    unfold proj_list. induction l as [|p l IH]; cbn [map]; [unfold tsum; cbn [fold_right]; rs; ring|].
+    rewrite !tsum_cons, IH, cvc_ft_linear. rs. unfold Rdiv. ring.
+  Qed.
+  Lemma proj_list_local l s (F G : RF) :
+    (forall a, In a (flat_map (fun p => cvc_atoms (fst p)) l) -> F a = G a) -> proj_list l s F = proj_list l s G.
+  Proof.
+    unfold proj_list. induction l as [|p l IH]; intros H; cbn [map flat_map] in *; [reflexivity|].
+    rewrite !tsum_cons, IH by (intros a Ha; apply H; rewrite in_app_iff; tauto).
+    rewrite (cvc_ft_local (fst p) F G) by (intros a Ha; apply H; rewrite in_app_iff; tauto). reflexivity.
+  Qed.
+
+  Definition inv_ok (c : RC) : Prop := forall fc, ft c (app c fc) = fc.
+  Definition atoms_disj (c c' : RC) : Prop := forall a, In a (cvc_atoms c) -> ~ In a (cvc_atoms c').
+  Definition appf (f : R) (p : RC * R) : RF := app (fst p) (f * snd p).
+
+  Lemma fsum_cons (X : RF) l : fsum Rops (X :: l) = fadd Rops X (fsum Rops l).
+  Proof. reflexivity. Qed.
+  Lemma fsum_support f (l : list (RC * R)) a :
+    (forall q, In q l -> ~ In a (cvc_atoms (fst q))) -> fsum Rops (map (appf f) l) a = v0.
+  Proof.
+    induction l as [|q l IH]; intros H; cbn [map]; [reflexivity|].
+    rewrite fsum_cons. unfold fadd. unfold appf at 1. rewrite cvc_apply_support by (apply H; left; reflexivity).
+    rewrite IH by (intros q' Hq'; apply H; right; exact Hq'). apply vadd_0_l.
+  Qed.
+
+  Lemma proj_combination f s : forall (l : list (RC * R)) (X : RF),
+    Forall (fun p => inv_ok (fst p)) l ->
+    ForallOrdPairs (fun p q => atoms_disj (fst p) (fst q)) l ->
+    (forall p, In p l -> forall a, In a (cvc_atoms (fst p)) -> X a = v0) ->
+    proj_list l s (fadd Rops X (fsum Rops (map (appf f) l))) = tsum Rops (map (fun p => f * snd p * snd p / s) l).
+  Proof.
+    induction l as [|p l IH]; intros X Hinv Hd HX; [reflexivity|].
+    inversion Hinv as [|? ? Hp Hinv']; subst. inversion Hd as [|? ? Hpl Hd']; subst.
+    cbn [map]. unfold proj_list in *. cbn [map]. rewrite !tsum_cons, fsum_cons.
+    f_equal.
+    - rewrite !cvc_ft_fadd.
+      rewrite (cvc_ft_vanish (fst p) X) by (intros a Ha; apply (HX p); [left; reflexivity|exact Ha]).
+      unfold appf at 1. rewrite Hp.
+      rewrite (cvc_ft_vanish (fst p) (fsum Rops (map (appf f) l))).
+      + rs. unfold Rdiv. ring.
+      + intros a Ha. apply fsum_support. intros q Hq. rewrite Forall_forall in Hpl. exact (Hpl q Hq a Ha).
+    - rewrite <- (IH (fadd Rops X (appf f p)) Hinv' Hd').
+      + f_equal. apply map_ext_in. intros q Hq.
+        rewrite (cvc_ft_ext (fst q) _ (fadd Rops (fadd Rops X (appf f p)) (fsum Rops (map (appf f) l)))); [reflexivity|].
+        intros a. unfold fadd. apply vadd_assoc.
+      + intros q Hq a Ha. unfold fadd. rewrite (HX q) by (try (right; exact Hq); exact Ha).
+        unfold appf. rewrite cvc_apply_support; [apply vadd_0_l|].
+        intros Hc. rewrite Forall_forall in Hpl. exact (Hpl q Hq a Hc Ha).
+  Qed.
+
+  Lemma tsum_scale (l : list (RC * R)) f s :
+    tsum Rops (map (fun p => f * snd p * snd p / s) l) = f * tsum Rops (map (fun p => snd p * snd p) l) / s.
+  Proof.
+    induction l as [|p l IH]; cbn [map]; [unfold tsum; cbn [fold_right]; rs; unfold Rdiv; ring|].
+    rewrite !tsum_cons, IH. rs. unfold Rdiv. ring.
+  Qed.
+
+  (* a linear combination of inverse-correct components on disjoint atoms is inverse-correct *)
+  Lemma cv_inverse cv f :
+    Forall (fun p => inv_ok (fst p)) (cv_comps cv) ->
+    ForallOrdPairs (fun p q => atoms_disj (fst p) (fst q)) (cv_comps cv) ->
+    cv_sqnorm Rops cv <> 0 ->
+    cv_proj Rops PI mass pos cv (cv_apply Rops PI mass pos cv f) = f.
+  Proof.
+    intros Hinv Hd Hs. rewrite cv_proj_eq. unfold cv_apply.
+    rewrite (proj_list_local _ _ _ (fadd Rops (fzero Rops) (fsum Rops (map (appf f) (cv_comps cv))))).
+    - rewrite proj_combination; try assumption; [|reflexivity].
+      rewrite tsum_scale. unfold cv_sqnorm in *. rs. field. exact Hs.
+    - intros a _. unfold fadd, fzero. fold v0. rewrite vadd_0_l. reflexivity.
+  Qed.
+
+  Lemma cv_proj_linear cv (F G : RF) a b :
+    cv_proj Rops PI mass pos cv (fadd Rops (fscale Rops a F) (fscale Rops b G))
+    = a * cv_proj Rops PI mass pos cv F + b * cv_proj Rops PI mass pos cv G.
+  Proof. rewrite !cv_proj_eq. apply proj_list_linear. Qed.
+  Lemma cv_proj_local cv (F G : RF) : (forall a, In a (cv_atoms cv) -> F a = G a) ->
+    cv_proj Rops PI mass pos cv F = cv_proj Rops PI mass pos cv G.
+  Proof. rewrite !cv_proj_eq. apply proj_list_local. Qed.
+  Lemma cv_proj_fadd cv (F G : RF) :
+    cv_proj Rops PI mass pos cv (fadd Rops F G) = cv_proj Rops PI mass pos cv F + cv_proj Rops PI mass pos cv G.
+  Proof.
+    rewrite (cv_proj_local cv (fadd Rops F G) (fadd Rops (fscale Rops 1 F) (fscale Rops 1 G))).
+    - rewrite cv_proj_linear. ring.
+    - intros a _. unfold fadd, fscale. rewrite !vscale_1. reflexivity.
+  Qed.
+End General.
+
+(* ================================================================== one step, the engine, histories *)
+Section Steps.
+  Variable mass : nat -> R.
+  Local Notation proj := (cv_proj Rops PI mass).
+  Local Notation fjf := (cv_fj Rops PI mass).
+  Local Notation capply := (cv_apply Rops PI mass).
+  Local Notation step := (cv_step Rops PI mass).
+  Local Notation estep := (eng_step Rops PI mass).
+  Local Notation erun := (eng_run Rops PI mass).
+
+  Lemma step_same cv s pos F fb : cv_samestep cv = true ->
+    o_ft (snd (step cv s pos F fb)) = proj pos cv F + (if cv_hide cv then 0 else fjf pos cv).
+  Proof.
+    intros H. unfold cv_step, adds_fj. rewrite H. cbn [snd o_ft andb orb negb].
+    destruct (cv_hide cv), (cv_subtract cv); cbn [andb orb negb]; rs; reflexivity.
+  Qed.
+  Lemma step_lag cv s pos F fb : cv_samestep cv = false -> (0 < st_rel s)%nat ->
+    o_ft (snd (step cv s pos F fb)) =
+      proj (st_prev_pos s) cv F + (if adds_fj cv then st_fj s else 0) - (if cv_subtract cv then st_fold s else 0).
+  Proof.
+    intros H Hr. unfold cv_step. rewrite H. apply Nat.ltb_lt in Hr. rewrite Hr. cbn [snd o_ft andb orb negb].
+    destruct (cv_subtract cv); cbn [andb orb negb]; rs; ring.
+  Qed.
+  Lemma step_first_lag cv s pos F fb : cv_samestep cv = false -> st_rel s = 0%nat ->
+    o_ft (snd (step cv s pos F fb)) = st_ft s.
+  Proof.
+    intros H Hr. unfold cv_step. rewrite H, Hr. cbn [snd o_ft andb orb negb Nat.ltb Nat.leb].
+    destruct (cv_subtract cv); reflexivity.
+  Qed.
+  Lemma step_state cv s pos F fb :
+    let r := step cv s pos F fb in
+    let f := applied_force Rops cv fb (fjf pos cv) in
+    st_prev_pos (fst r) = pos /\ st_fj (fst r) = fjf pos cv /\ st_rel (fst r) = S (st_rel s) /\
+    st_fold (fst r) = (if cv_subtract cv then f else st_fold s) /\
+    o_f (snd r) = f /\ o_forces (snd r) = capply pos cv f.
+  Proof. unfold cv_step. cbn [fst snd st_prev_pos st_fj st_rel st_fold o_f o_forces]. repeat split; reflexivity. Qed.
+
+  Lemma estep_eq cv inc s i :
+    estep cv inc s i =
+      (let r := step cv (es_cv s) (e_pos i) (if cv_samestep cv then e_force i else es_prev_total s) (e_fb i) in
+       (mkEstate (fst r) (if inc then fadd Rops (e_force i) (o_forces (snd r)) else e_force i), snd r)).
+  Proof. unfold eng_step. destruct (cv_step _ _ _ _ _ _ _ _ _) as [cs out]. reflexivity. Qed.
+
+  (* what the engine delivers in the lagged convention for the step of input i *)
+  Definition own_force (cv : colvar) (i : einput) : R := applied_force Rops cv (e_fb i) (fjf (e_pos i) cv).
+  Definition exerted (cv : colvar) (inc : bool) (i : einput) : RF :=
+    if inc then fadd Rops (e_force i) (capply (e_pos i) cv (own_force cv i)) else e_force i.
+  Definition lag_report (cv : colvar) (inc : bool) (i : einput) : R :=
+    proj (e_pos i) cv (exerted cv inc i) + (if adds_fj cv then fjf (e_pos i) cv else 0)
+    - (if cv_subtract cv then own_force cv i else 0).
+  Definition same_report (cv : colvar) (i : einput) : R :=
+    proj (e_pos i) cv (e_force i) + (if cv_hide cv then 0 else fjf (e_pos i) cv).
+
+  Lemma two_steps_lag cv inc s0 i1 i2 : cv_samestep cv = false ->
+    o_ft (snd (estep cv inc (fst (estep cv inc s0 i1)) i2)) = lag_report cv inc i1.
+  Proof.
+    intros H. rewrite (estep_eq cv inc _ i2). cbv zeta. cbn [snd]. rewrite H.
+    rewrite (estep_eq cv inc s0 i1). cbv zeta. cbn [fst es_cv es_prev_total]. rewrite H.
+    set (r1 := step cv (es_cv s0) (e_pos i1) (es_prev_total s0) (e_fb i1)).
+    pose proof (step_state cv (es_cv s0) (e_pos i1) (es_prev_total s0) (e_fb i1)) as St. cbv zeta in St. fold r1 in St.
+    destruct St as (Sp & Sj & Sr & Sf & So & Sc).
+    rewrite step_lag by (try exact H; rewrite Sr; lia).
+    rewrite Sp, Sj, Sf, Sc, So. unfold lag_report, exerted, own_force.
+    destruct inc, (cv_subtract cv); reflexivity.
+  Qed.
+  Lemma one_step_same cv inc s i : cv_samestep cv = true -> o_ft (snd (estep cv inc s i)) = same_report cv i.
+  Proof. intros H. rewrite estep_eq. cbv zeta. cbn [snd]. rewrite H. apply step_same. exact H. Qed.
+
+  (* the last report of a history *)
+  Definition last_ft (l : list cvout) : R := last (map (@o_ft R) l) 0.
+  Lemma erun_cons cv inc s i l :
+    erun cv inc s (i :: l) = (fst (erun cv inc (fst (estep cv inc s i)) l), snd (estep cv inc s i) :: snd (erun cv inc (fst (estep cv inc s i)) l)).
+  Proof. cbn [eng_run]. destruct (eng_step _ _ _ _ _ _ _) as [s1 o]. destruct (eng_run _ _ _ _ _ _ _) as [s2 os]. reflexivity. Qed.
+  Lemma erun_nil cv inc s : erun cv inc s [] = (s, []).
+  Proof. reflexivity. Qed.
+
+  Lemma history_lag cv inc i1 i2 : cv_samestep cv = false ->
+    forall pre s, last_ft (snd (erun cv inc s (pre ++ [i1; i2]))) = lag_report cv inc i1.
+  Proof.
+    intros H. induction pre as [|i pre IH]; intros s.
+    - cbn [app]. rewrite !erun_cons, erun_nil. cbn [snd fst]. unfold last_ft. cbn [map last].
+      apply two_steps_lag. exact H.
+    - cbn [app]. rewrite erun_cons. cbn [snd]. unfold last_ft in *. cbn [map].
+      specialize (IH (fst (estep cv inc s i))).
+      destruct (map (@o_ft R) (snd (erun cv inc (fst (estep cv inc s i)) (pre ++ [i1; i2])))) as [|x xs] eqn:E.
+      + exfalso. assert (L : length (snd (erun cv inc (fst (estep cv inc s i)) (pre ++ [i1; i2]))) = 0%nat)
+          by (rewrite <- (map_length (@o_ft R)), E; reflexivity).
+        clear - L. revert L. generalize (fst (estep cv inc s i)). induction pre as [|j pre IHp]; intros s'; cbn [app];
+          rewrite erun_cons; cbn [snd length]; discriminate.
+      + cbn [last]. exact IH.
+  Qed.
+  Lemma history_same cv inc i : cv_samestep cv = true ->
+    forall pre s, last_ft (snd (erun cv inc s (pre ++ [i]))) = same_report cv i.
+  Proof.
+    intros H. induction pre as [|j pre IH]; intros s.
+    - cbn [app]. rewrite erun_cons, erun_nil. cbn [snd]. unfold last_ft. cbn [map last]. apply one_step_same. exact H.
+    - cbn [app]. rewrite erun_cons. cbn [snd]. unfold last_ft in *. cbn [map].
+      specialize (IH (fst (estep cv inc s j))).
+      destruct (map (@o_ft R) (snd (erun cv inc (fst (estep cv inc s j)) (pre ++ [i])))) as [|x xs] eqn:E.
+      + exfalso. assert (L : length (snd (erun cv inc (fst (estep cv inc s j)) (pre ++ [i]))) = 0%nat)
+          by (rewrite <- (map_length (@o_ft R)), E; reflexivity).
+        clear - L. revert L. generalize (fst (estep cv inc s j)). induction pre as [|k pre IHp]; intros s'; cbn [app];
+          rewrite erun_cons; cbn [snd length]; discriminate.
+      + cbn [last]. exact IH.
+  Qed.
+  (* first step of a run in the lagged convention: nothing has been measured *)
+  Lemma history_first_lag cv inc i : cv_samestep cv = false ->
+    last_ft (snd (erun cv inc (eng_init Rops) [i])) = 0.
+  Proof.
+    intros H. rewrite erun_cons, erun_nil. cbn [snd]. unfold last_ft. cbn [map last].
+    rewrite estep_eq. cbv zeta. cbn [snd]. rewrite step_first_lag by (try exact H; reflexivity). reflexivity.
+  Qed.
+
+  (* ---- consequences for an inverse-correct variable ---- *)
+  Definition cv_inv_ok (pos : RF) (cv : colvar) : Prop :=
+    Forall (fun p => inv_ok mass pos (fst p)) (cv_comps cv) /\
+    ForallOrdPairs (fun p q => atoms_disj (fst p) (fst q)) (cv_comps cv) /\
+    cv_sqnorm Rops cv <> 0.
+
+  Lemma proj_exerted cv i : cv_inv_ok (e_pos i) cv ->
+    proj (e_pos i) cv (exerted cv true i) = proj (e_pos i) cv (e_force i) + own_force cv i.
+  Proof.
+    intros (Hi & Hd & Hs). unfold exerted. rewrite cv_proj_fadd, cv_inverse by assumption. reflexivity.
+  Qed.
+  Lemma proj_vanish cv pos (F : RF) : (forall a, In a (cv_atoms cv) -> F a = v0) -> proj pos cv F = 0.
+  Proof.
+    intros H. rewrite (cv_proj_local mass pos cv F (fzero Rops)) by (intros a Ha; rewrite H by exact Ha; reflexivity).
+    rewrite cv_proj_eq. unfold proj_list. induction (cv_comps cv) as [|p l IH]; cbn [map]; [reflexivity|].
+    rewrite tsum_cons, IH, cvc_ft_fzero. rs. unfold Rdiv. ring.
+  Qed.
+
+  Lemma cv_fj_T0 cv pos : cv_kT cv = 0 -> fjf pos cv = 0.
+  Proof. intros H. unfold cv_fj. rewrite H. rs. ring. Qed.
+
+  Lemma sqnorm_pm1 cv : cv_comps cv <> [] -> Forall (fun p => snd p = 1 \/ snd p = -1) (cv_comps cv) ->
+    cv_sqnorm Rops cv = ofnat Rops (length (cv_comps cv)) /\ cv_sqnorm Rops cv <> 0.
+  Proof.
+    intros Hne H.
+    assert (E : cv_sqnorm Rops cv = ofnat Rops (length (cv_comps cv))).
+    { unfold cv_sqnorm. induction (cv_comps cv) as [|p l IH]; cbn [map length].
+      - reflexivity.
+      - inversion H as [|? ? Hp Hl]; subst. rewrite tsum_cons. unfold tsum in *.
+        assert (IH' : fold_right (fun x acc : R => nadd Rops x acc) (n0 Rops) (map (fun p0 : RC * R => nmul Rops (snd p0) (snd p0)) l) = ofnat Rops (length l)).
+        { destruct l as [|q l']; [reflexivity|]. apply IH; [discriminate|exact Hl]. }
+        rewrite IH'. unfold ofnat. rs. rewrite Nat2Z.inj_succ, succ_IZR. destruct Hp as [-> | ->]; ring. }
+    split; [exact E|]. rewrite E. apply Rgt_not_eq, Rlt_gt, ofnat_pos. destruct (cv_comps cv); [contradiction|cbn; lia].
+  Qed.
+End Steps.
